@@ -124,6 +124,21 @@ LWith ==
   /\ (st.err.clause = "with-order") =>
         (Len(h) > 0 /\ h[Len(h)][1] = "use" /\ h[Len(h)][2] = st.err.detail)
 
+(* Duplicates: an alias-dup / with-dup error names the last event's name,   *)
+(* which occurred earlier in the statement with the same kind; on flat      *)
+(* statements (SELECT first) a repeated alias is always an error.           *)
+LDup ==
+  LET n_ == Len(Seg)
+      earlier(kinds, a) == \E j \in 1..(n_ - 1) : Seg[j][1] \in kinds /\ Seg[j][2] = a
+  IN /\ (st.err.clause = "alias-dup") =>
+          (n_ > 0 /\ Seg[n_][1] = "alias" /\ Seg[n_][2] = st.err.detail
+           /\ earlier({"alias"}, st.err.detail))
+     /\ (st.err.clause = "with-dup") =>
+          (\E k \in 1..n_ : Seg[k][1] \in {"with", "withrec"} /\ Seg[k][2] = st.err.detail
+              /\ \E j \in 1..(k - 1) : Seg[j][1] \in {"with", "withrec"} /\ Seg[j][2] = st.err.detail)
+     /\ (n_ > 0 /\ Flat(Seg) /\ Seg[1][1] = "select" /\ Seg[n_][1] = "alias"
+         /\ earlier({"alias"}, Seg[n_][2])) => st.err.clause = "alias-dup"
+
 LShape == WellShaped(st) /\ st.i = Len(h)
 
 LMisc ==
@@ -162,6 +177,13 @@ ASSUME \* CREATE TABLE serves the later statements of the script only
   /\ Cl(<<E("create", "t"), Sel, Fin, Sel, E("use", "t"), Fin>>) = ""
   /\ Cl(<<E("create", "t"), Sel, E("use", "t"), Fin>>) = "with-order"
   /\ Cl(<<Sel, E("use", "t"), Fin, E("create", "t"), Sel, Fin>>) = "with-order"
+ASSUME \* duplicates: one WITH list, one from-list; other scopes may reuse a name
+  /\ Cl(<<E("with", "t"), O, Sel, C, E("with", "t"), O, Sel, C, Sel, Fin>>) = "with-dup"
+  /\ Cl(<<E("with", "t"), O, Sel, C, Sel, O, E("with", "t"), O, Sel, C, Sel, C, Fin>>) = ""
+  /\ Cl(<<E("with", "t"), O, Sel, C, Sel, Fin, E("with", "t"), O, Sel, C, Sel, Fin>>) = ""
+  /\ Cl(<<Sel, E("alias", "a"), E("alias", "a"), Fin>>) = "alias-dup"
+  /\ Cl(<<Sel, E("alias", "a"), O, Sel, E("alias", "a"), C, Fin>>) = ""
+  /\ Cl(<<Sel, E("alias", "a"), U, Sel, E("alias", "a"), Fin>>) = ""
 ASSUME \* brackets, placeholders, statement boundary
   /\ Cl(<<Sel, O, E("open", "["), C, Fin>>) = "bracket"
   /\ Cl(<<Sel, O, Fin>>) = "bracket"
